@@ -327,7 +327,32 @@ def _classify(got, want):
     return "document-head-differs" if g == w else "document-body-differs"
 
 
+def check_shared_content(ctx, case):
+    """Two documents built from the same TagList (or list): appending to one changes neither the list nor the other."""
+    wit = {"case": case, "scenario": "two documents from one content list"}
+    content = ht.TagList(*[gen.build(c) for c in strip_marks(case["content"])])
+    snapshot = list(content)
+    kw = {k: gen.build_attr_value(v) for k, v in case["kw"]}
+    d1 = ht.HTMLDocument(content, **kw)
+    d2 = ht.HTMLDocument(content, **kw)
+    before = d2.render()["html"]
+    ctx.count("oracle.shared_content")
+    d1.append(ht.div("appended-to-first"), ht.HTMLDependency("late-dep", "1.0", script={"src": "l.js"}))
+    if len(content) != len(snapshot) or any(a is not b for a, b in zip(content, snapshot)):
+        ctx.violation("document-content-aliased", "append() on a document changed the TagList it was built from", wit)
+        return False
+    if d2.render()["html"] != before:
+        ctx.violation("document-content-aliased", "append() on one document changed another document built from the same list", wit)
+        return False
+    if "appended-to-first" not in d1.render()["html"]:
+        ctx.violation("document-body-differs", "appended content missing", wit)
+        return False
+    return True
+
+
 def replay(ctx, w):
+    if w.get("scenario"):
+        return check_shared_content(ctx, w["case"])
     check_case(ctx, w["case"])
 
 
@@ -348,6 +373,8 @@ def run(ctx):
     for _ in range(ctx.budget(2500, 1500000)):
         case = rand_case(rng)
         ctx.guard(check_case, ctx, case, witness={"case": case})
+        if rng.random() < 0.1:
+            ctx.guard(check_shared_content, ctx, case, witness={"case": case, "scenario": "two documents from one content list"})
         ctx.case(case, nontrivial=nontrivial(case))
         ctx.state("shape_x_prefix", (case["shape"], case["lib_prefix"], case["include_version"]))
     # separate input class: a dependency nested inside another dependency's head (known finding F6)
